@@ -79,3 +79,115 @@ theorem parseOptions_conv (bs : Bytes) (m : TlvMap) (hb : ∀ b ∈ bs, b < 256)
   parseOptionsLoop_conv (bs.length + 1) bs [] m (by omega) hb (by simpa [parseOptions] using h)
 
 end SmsVerif
+
+namespace SmsVerif
+
+theorem readBytes_ok' (r : Reader) (n : Nat) (h0 : r.err = none) (h1 : (r.readBytes n).2.err = none) :
+    (r.readBytes n).1 = r.rest.take n ∧ (r.readBytes n).2.rest = r.rest.drop n ∧ n ≤ r.rest.length := by
+  unfold Reader.readBytes at h1 ⊢
+  simp only [h0] at h1 ⊢
+  split
+  · rename_i hn; subst hn; simp
+  · rename_i hn
+    rw [if_neg hn] at h1
+    split
+    · rename_i he; rw [if_pos he] at h1; simp at h1
+    · rename_i he
+      rw [if_neg he] at h1
+      split
+      · rename_i hl; rw [if_pos hl] at h1; simp at h1
+      · rename_i hl; exact ⟨rfl, rfl, by omega⟩
+
+theorem four_bytes (hd : Bytes) (h : hd.length = 4) (hb : ∀ b ∈ hd, b < 256) :
+    be 2 (fromBe (hd.take 2)) ++ be 2 (fromBe (hd.drop 2)) = hd ∧ fromBe (hd.take 2) < 65536 ∧
+      fromBe (hd.drop 2) < 65536 := by
+  match hd, h, hb with
+  | [x, y, z, w], _, hb =>
+    have hx : x < 256 := hb x (by simp)
+    have hy : y < 256 := hb y (by simp)
+    have hz : z < 256 := hb z (by simp)
+    have hw : w < 256 := hb w (by simp)
+    refine ⟨?_, fromBe2_lt x y hx hy, fromBe2_lt z w hz hw⟩
+    show be 2 (fromBe [x, y]) ++ be 2 (fromBe [z, w]) = [x, y, z, w]
+    rw [be2_fromBe x y hx hy, be2_fromBe z w hz hw]; rfl
+
+/-- the reader-based parsers return the last-wins container of a *prefix* of the input made of
+    complete triplets (they stop quietly at the first triplet that is cut short) -/
+theorem readTlvLoop_prefix : ∀ (fuel : Nat) (r : Reader) (m res : TlvMap),
+    r.err = none → (∀ b ∈ r.rest, b < 256) → (readTlvLoop fuel r m).map = some res →
+    ∃ seq : TlvMap, (∀ tv ∈ seq, tv.1 < 65536 ∧ tv.2.length < 65536) ∧ tlvsBytes seq <+: r.rest ∧
+      res = upsertAll m seq
+  | 0, r, m, res, _, _, h => by
+    simp only [readTlvLoop, Option.some.injEq] at h
+    exact ⟨[], by simp, by simp [tlvsBytes], by simp [upsertAll, h]⟩
+  | fuel+1, r, m, res, he, hb, h => by
+    have nilcase : ∀ res', some m = some res' →
+        ∃ seq : TlvMap, (∀ tv ∈ seq, tv.1 < 65536 ∧ tv.2.length < 65536) ∧ tlvsBytes seq <+: r.rest ∧
+          res' = upsertAll m seq := by
+      intro res' h'
+      simp only [Option.some.injEq] at h'
+      exact ⟨[], by simp, by simp [tlvsBytes], by simp [upsertAll, h']⟩
+    simp only [readTlvLoop] at h
+    split at h
+    · exact nilcase res h
+    · have h1 := readBytes_ok' r 4 he
+      generalize r.readBytes 4 = p1 at h1 h
+      obtain ⟨hd, r1⟩ := p1
+      simp only at h1 h
+      split at h
+      · exact nilcase res (by simpa [Reader.setErrNil] using h)
+      · simp at h
+      · rename_i he1
+        obtain ⟨hhd, hr1, hlen4⟩ := h1 he1
+        generalize hlen : fromBe (hd.drop 2) = len at h
+        have h2 := readBytes_ok' { r1 with alloc := r1.alloc + min len (r1.remaining + 1) } len (by simpa using he1)
+        generalize Reader.readBytes { r1 with alloc := r1.alloc + min len (r1.remaining + 1) } len = p2 at h2 h
+        obtain ⟨v, r2⟩ := p2
+        simp only at h2 h
+        split at h
+        · exact nilcase res (by simpa [Reader.setErrNil] using h)
+        · simp at h
+        · rename_i he2
+          obtain ⟨hv, hr2, hlenv⟩ := h2 he2
+          have hr2' : r2.rest = (r.rest.drop 4).drop len := by rw [hr2]; simp [hr1]
+          have hv' : v = (r.rest.drop 4).take len := by rw [hv]; simp [hr1]
+          have hlenv' : len ≤ (r.rest.drop 4).length := by simpa [hr1] using hlenv
+          have hb2 : ∀ b ∈ r2.rest, b < 256 := by
+            intro b hbm; rw [hr2'] at hbm
+            exact hb b (List.mem_of_mem_drop (List.mem_of_mem_drop hbm))
+          obtain ⟨seq, hwf, hpre, hres⟩ := readTlvLoop_prefix fuel r2 _ res he2 hb2 h
+          have hhdlen : hd.length = 4 := by rw [hhd, List.length_take]; omega
+          have hhdb : ∀ b ∈ hd, b < 256 := by
+            intro b hbm; rw [hhd] at hbm; exact hb b (List.mem_of_mem_take hbm)
+          obtain ⟨h4a, h4b, h4c⟩ := four_bytes hd hhdlen hhdb
+          have hvlen : v.length = len := by rw [hv', List.length_take]; omega
+          refine ⟨(fromBe (hd.take 2), v) :: seq, ?_, ?_, ?_⟩
+          · intro tv htv
+            rcases List.mem_cons.1 htv with rfl | h'
+            · exact ⟨h4b, by rw [hvlen, ← hlen]; exact h4c⟩
+            · exact hwf tv h'
+          · have hsmall := tlvBytes_small (fromBe (hd.take 2)) v (by rw [hvlen, ← hlen]; exact h4c)
+            obtain ⟨post, hpost⟩ := hpre
+            refine ⟨post, ?_⟩
+            simp only [tlvsBytes, List.map_cons, List.flatten_cons]
+            rw [hsmall, hvlen, ← hlen, h4a]
+            simp only [tlvsBytes] at hpost
+            have e1 : r.rest = hd ++ (v ++ r2.rest) := by
+              rw [hhd, hv', hr2', List.take_append_drop, List.take_append_drop]
+            rw [e1, ← hpost]
+            simp [List.append_assoc]
+          · simpa [upsertAll] using hres
+
+theorem readTlvs_prefix (r : Reader) (res : TlvMap) (hb : ∀ b ∈ r.rest, b < 256)
+    (h : (readTlvs r).map = some res) :
+    ∃ seq : TlvMap, (∀ tv ∈ seq, tv.1 < 65536 ∧ tv.2.length < 65536) ∧ tlvsBytes seq <+: r.rest ∧
+      res = upsertAll [] seq := by
+  unfold readTlvs at h
+  split at h
+  · simp at h
+  · split at h
+    · simp at h
+    · rename_i he
+      exact readTlvLoop_prefix _ r [] res (by simpa using he) hb h
+
+end SmsVerif
